@@ -155,13 +155,15 @@ class EndToEnd(NativeCase):
         optsets = OPTSETS_Q if tier == 'quick' else OPTSETS_T
         n_states = 12 if tier == 'quick' else 48
         blocks = list(corpus.BASE_BLOCKS) + list(EDGE_BLOCKS)
+        shapes = corpus.rule_shape_blocks(1 if tier == 'quick' else 2)
         changed = 0
-        for b in blocks:
+        shapes_set = set(shapes)
+        for b in blocks + shapes:
             toks = corpus.tokens(b)
             text = pipeline.plain_text(toks)
             items_in = evmexec.parse_plain(toks)
             depth = utils.compute_stack_size(plain_names(toks))
-            for opts in optsets:
+            for opts in (optsets if b not in shapes_set else optsets[:2]):
                 inp = dict(block=text, opts=list(opts))
                 r = pipeline.run_cli(text, opts, timeout=30)
                 if r['output'] is None:
